@@ -344,7 +344,7 @@ func (fr *Frame) execInstr(in ssa.Instruction, st *State) *State {
 		a := MkLoc(o, IntLit(0))
 		fr.zeroInit(st, derefType(x.Type()), a)
 		fr.setReg(x, a)
-		if !u.allocEscapes(x) && u.rec == nil {
+		if (!u.allocEscapes(x) || u.writeOnceCell(x)) && u.rec == nil {
 			u.localCells = append(u.localCells, localCell{addr: fr.regs[x], typ: derefType(x.Type())})
 		}
 		switch x.Comment {
